@@ -1,5 +1,7 @@
 package main
 
+import "strings"
+
 // Replay for the shortcut (alias) returns of C01: x op c and c op x with the constants 0, 1, -1,
 // for float and complex operands at IEEE special values and for integer operands at their
 // boundaries, compared bit for bit with the operator compiled natively.
@@ -42,6 +44,20 @@ func gowpBits(v interface{}) string {
 func TestGowpReplayC01Alias(t *testing.T) {
 	ir := New()
 	gowpEval01b(ir, "import \"math\"")
+	ir.Eval("var x float64; var y float32; var z complex128; var gu_uint64 uint64; var gu_uint uint; var gu_uintptr uintptr; var gn int64")
+	px := ir.ValueOf("x").ReflectValue().Addr().Interface().(*float64)
+	py := ir.ValueOf("y").ReflectValue().Addr().Interface().(*float32)
+	fstr := func(v float64) string {
+		switch {
+		case v == 0 && math.Signbit(v):
+			return "math.Copysign(0, -1)"
+		case math.IsInf(v, 1):
+			return "math.Inf(1)"
+		case math.IsInf(v, -1):
+			return "math.Inf(-1)"
+		}
+		return fmt.Sprintf("float64(%v)", v)
+	}
 	nz := math.Copysign(0, -1)
 	inf := math.Inf(1)
 	f64 := []float64{0, nz, 1, -1, 2.5, inf, -inf, math.MaxFloat64}
@@ -56,17 +72,16 @@ func TestGowpReplayC01Alias(t *testing.T) {
 		{"x * 0", func(x float64) float64 { return x * 0 }}, {"0 * x", func(x float64) float64 { return 0 * x }},
 		{"x / 1", func(x float64) float64 { return x / 1 }}, {"x / -1", func(x float64) float64 { return x / -1 }},
 		{"x * 2", func(x float64) float64 { return x * 2 }}, {"x / 2", func(x float64) float64 { return x / 2 }},
+		{"x / 0", func(x float64) float64 { var z float64; return x / z }},
 	} {
 		for _, x := range f64 {
-			ir.Eval("var x float64")
-			*(ir.ValueOf("x").ReflectValue().Addr().Interface().(*float64)) = x
+			*px = x
 			res, err := gowpEval01b(ir, c.expr)
 			want := c.f(x)
 			if err != nil || gowpBits(res) != gowpBits(want) {
 				t.Fatalf("GOWP-REPLAY-FAIL float64 x = %v (bits %s): %s gives %v (%s, error %v), compiled Go gives %v (%s)", x, gowpBits(x), c.expr, res, gowpBits(res), err, want, gowpBits(want))
 			}
-			ir.Eval("var y float32")
-			*(ir.ValueOf("y").ReflectValue().Addr().Interface().(*float32)) = float32(x)
+			*py = float32(x)
 			e32 := ""
 			for _, ch := range c.expr {
 				if ch == 'x' {
@@ -104,10 +119,81 @@ func TestGowpReplayC01Alias(t *testing.T) {
 					want32 = y * 2
 				case "x / 2":
 					want32 = y / 2
+				case "x / 0":
+					var z32 float32
+					want32 = y / z32
 				}
 			}
 			if err != nil || gowpBits(res) != gowpBits(want32) {
 				t.Fatalf("GOWP-REPLAY-FAIL float32 y = %v: %s gives %v (%s, error %v), compiled Go gives %v (%s)", float32(x), e32, res, gowpBits(res), err, want32, gowpBits(want32))
+			}
+		}
+	}
+	// unsigned 64-bit: "all bits set" is not -1
+	for _, k := range []string{"uint64", "uint", "uintptr"} {
+		for _, c := range []struct {
+			expr string
+			f    func(u uint64) uint64
+		}{
+			{"u / 18446744073709551615", func(u uint64) uint64 { return u / 18446744073709551615 }},
+			{"u * 18446744073709551615", func(u uint64) uint64 { return u * 18446744073709551615 }},
+			{"u % 18446744073709551615", func(u uint64) uint64 { return u % 18446744073709551615 }},
+			{"u / 8", func(u uint64) uint64 { return u / 8 }}, {"u % 8", func(u uint64) uint64 { return u % 8 }}, {"u * 8", func(u uint64) uint64 { return u * 8 }},
+			{"u / 9223372036854775808", func(u uint64) uint64 { return u / 9223372036854775808 }},
+		} {
+			for _, u := range []uint64{0, 1, 7, 8, 9, 1 << 63, ^uint64(0), ^uint64(0) - 1} {
+				gowpEval01b(ir, fmt.Sprintf("gu_%s = %d", k, u))
+				res, err := gowpEval01b(ir, "gu_"+k+c.expr[1:])
+				if err != nil || fmt.Sprint(res) != fmt.Sprint(c.f(u)) {
+					t.Fatalf("GOWP-REPLAY-FAIL %s u = %d: %s gives %v (error %v), compiled Go gives %d", k, u, c.expr, res, err, c.f(u))
+				}
+			}
+		}
+	}
+	// signed: powers of two with negative operands
+	for _, c := range []struct {
+		expr string
+		f    func(n int64) int64
+	}{
+		{"n / 8", func(n int64) int64 { return n / 8 }}, {"n % 8", func(n int64) int64 { return n % 8 }}, {"n * 8", func(n int64) int64 { return n * 8 }},
+		{"n / -8", func(n int64) int64 { return n / -8 }}, {"n % -8", func(n int64) int64 { return n % -8 }}, {"n * -8", func(n int64) int64 { return n * -8 }},
+		{"n / -1", func(n int64) int64 { return n / -1 }}, {"n * -1", func(n int64) int64 { return n * -1 }}, {"n % 1", func(n int64) int64 { return n % 1 }},
+		{"n / 4611686018427387904", func(n int64) int64 { return n / 4611686018427387904 }}, {"n % 4611686018427387904", func(n int64) int64 { return n % 4611686018427387904 }},
+	} {
+		for _, n := range []int64{0, 1, -1, 7, -7, 8, -8, 9, -9, math.MaxInt64, math.MinInt64, math.MinInt64 + 1} {
+			gowpEval01b(ir, fmt.Sprintf("gn = %d", n))
+			res, err := gowpEval01b(ir, "gn"+c.expr[1:])
+			if err != nil || fmt.Sprint(res) != fmt.Sprint(c.f(n)) {
+				t.Fatalf("GOWP-REPLAY-FAIL int64 n = %d: %s gives %v (error %v), compiled Go gives %d", n, c.expr, res, err, c.f(n))
+			}
+		}
+	}
+	// narrower signed kinds, through int64 arithmetic truncated natively
+	for _, k := range []struct {
+		name string
+		bits uint
+	}{{"int8", 8}, {"int16", 16}, {"int32", 32}, {"int", 64}} {
+		gowpEval01b(ir, "var gk_"+k.name+" "+k.name)
+		trunc := func(v int64) int64 { return v << (64 - k.bits) >> (64 - k.bits) }
+		for _, d := range []int64{2, 4, 8, 64, -2, -8, -64} {
+			for _, n0 := range []int64{0, 1, -1, 7, -7, 9, -9, 63, -63, 64, -64, 100, -100, 127, -128} {
+				n := trunc(n0)
+				gowpEval01b(ir, fmt.Sprintf("gk_%s = %d", k.name, n))
+				for _, op := range []string{"/", "%", "*"} {
+					var want int64
+					switch op {
+					case "/":
+						want = trunc(n / d)
+					case "%":
+						want = trunc(n % d)
+					case "*":
+						want = trunc(n * d)
+					}
+					res, err := gowpEval01b(ir, fmt.Sprintf("gk_%s %s %d", k.name, op, d))
+					if err != nil || fmt.Sprint(res) != fmt.Sprint(want) {
+						t.Fatalf("GOWP-REPLAY-FAIL %s n = %d: n %s %d gives %v (error %v), compiled Go gives %d", k.name, n, op, d, res, err, want)
+					}
+				}
 			}
 		}
 	}
@@ -123,8 +209,9 @@ func TestGowpReplayC01Alias(t *testing.T) {
 		{"z / 1", func(z complex128) complex128 { return z / 1 }},
 	} {
 		for _, z := range cvals {
-			ir.Eval("var z complex128")
-			*(ir.ValueOf("z").ReflectValue().Addr().Interface().(*complex128)) = z
+			if _, err := gowpEval01b(ir, "z = complex("+fstr(real(z))+", "+fstr(imag(z))+")"); err != nil {
+				t.Fatalf("setup: %v", err)
+			}
 			res, err := gowpEval01b(ir, c.expr)
 			want := c.f(z)
 			if err != nil || gowpBits(res) != gowpBits(want) {
@@ -138,6 +225,11 @@ func TestGowpReplayC01Alias(t *testing.T) {
 func init() {
 	r := &replayer{pkg: "fast", test: "TestGowpReplayC01Alias", kind: "search", source: func(map[string]string, string) string { return replayC01Alias }}
 	for _, f := range []string{"Add", "Sub", "Mul", "Quo", "Rem", "And", "Or", "Xor", "Andnot", "mulPow2", "quoPow2", "remPow2"} {
-		replayers["fast.(*Comp)."+f+"|alias"] = r
+		for _, kind := range []string{"alias", "delegated", "delegated-requires", "closure", "before@(*Stringer).Errorf"} {
+			if kind == "closure" && !strings.HasSuffix(f, "Pow2") {
+				continue
+			}
+			replayers["fast.(*Comp)."+f+"|"+kind] = r
+		}
 	}
 }
